@@ -294,7 +294,18 @@ class B(object):
                     fname = '_' + fname
                 fields.append({'name': fname, 'type': P(fn(rt, ps))})
                 self.features.add('anon-callback-field')
-            elif r < 0.3 and i > 0:
+            elif r < 0.27:
+                # nested anonymous struct / union, possibly holding a function pointer itself
+                inner = []
+                for j in range(rng.randint(1, 2)):
+                    if rng.random() < 0.5:
+                        ps = [{'name': 'b%d' % q, 'type': self.pick('cbparam')[0]} for q in range(rng.randint(0, 2))]
+                        inner.append({'name': 'g%d' % j, 'type': P(fn(rng.choice([T('void'), T('int')]), ps))})
+                    else:
+                        inner.append({'name': 'g%d' % j, 'type': self.pick('field')[0]})
+                fields.append({'name': fname, 'type': {'k': rng.choice(['struct', 'union']), 'n': None, 'fields': inner}})
+                self.features.add('nested-anonymous-compound')
+            elif r < 0.36 and i > 0:
                 fields.append({'name': fname, 'type': P(T('int'))})
                 tgt = rng.choice([f['name'] for f in fields[:-1]] + ['nosuch'])
                 fann[fname] = ['array length=%s' % tgt]
@@ -314,10 +325,14 @@ class B(object):
         else:
             self.units.append(unit)
         ann = []
-        if rng.random() < 0.12:
+        r = rng.random()
+        if r < 0.12:
             ann.append('skip')
             self.skipped.append(n)
             self.features.add('skipped-record')
+        elif r < 0.18:
+            ann.append('foreign')
+            self.features.add('foreign-record')
         if ann or fann:
             self.block(n, ann, fann)
         self.records.append(n)
@@ -1353,7 +1368,8 @@ def run(ctx):
     ctx.coverage.update({
         'evaluations': state['evaluated'] + len(shipped) + len(wcases) + len(fcases),
         'distinct_nontrivial': cnt.n_distinct(),
-        'rule': 'generated API descriptions (records, unions, callbacks, aliases, enums, functions, methods, classes '
+        'rule': 'generated API descriptions (records and unions — also skipped, foreign, with function-pointer fields '
+                'and nested anonymous structs / unions —, callbacks, aliases, enums, functions, methods, classes '
                 'with a supplied dump, rename-to pairs and chains) over pools of fundamental, exotic, unresolved, '
                 'included, included-but-marked, callback and container types with and without scope / transfer / '
                 'element-type / closure / destroy / length annotations, declaration units shuffled; explicit reference '
